@@ -68,11 +68,20 @@
               calls; it never runs out of fuel on a decoded map (every tick
               distance is >= 2^-25); its output is valid UTF-8 text; Err only
               from the writer; it never panics outside the class "osu!/catch
-              map with a slider of negative curve distance".  OPEN: that this
-              class is empty -- that binary32 rounding of the osu!-mode Catmull
-              surplus cannot make a final cumulative length negative
-              ([C01_encode_never_panics_partial]; no counterexample in 2*10^8
-              decoded sliders on the crate));
+              map with a slider of negative curve distance"; that class is
+              EMPTY FOR BOUNDED INPUTS: osu!-mode Catmull sub-paths with
+              finite vertices |c| <= 2^20 whose consecutive vertices are
+              numerically equal or at least 2^-60 apart, at most 2^30
+              vertices ([C01_curve_dist_nonneg_bounded],
+              [C01_encode_never_panics_bounded]).  OPEN: the class is empty
+              without those bounds -- Catmull steps between 0 and 2^-60
+              (the binary32 underflow range; not reachable from a decoded
+              file as far as probed: decoded control points are integers
+              and no step below 2^-22 was seen) and coordinates beyond
+              2^20; and that EVERY decoded slider meets the bounds
+              ([C01_encode_never_panics_partial]; no counterexample in
+              2*10^8 decoded sliders on the crate, nor in the underflow
+              search of probes/C01_negdist, Q1u));
      not expressible in the model: memory safety of the `point_split`
               re-borrow given in-bounds indices, real stack/heap exhaustion,
               wall-clock time.
@@ -853,12 +862,18 @@ Print Assumptions C01_T01g_curve_bounded.
         without an osu!-mode Catmull slider, and whenever the surplus of every
         slider is not negative; and a panic, if any, is the D18 panic of a
         concrete slider ([C01_encode_panic_is_D18]).
-        NOT PROVED (full statement [C01_encode_never_panics], below in a
-        comment): that the surplus -- a sum of differences
+        The surplus -- a sum of differences
         `len_removed_since_start - dist_from_start` of ROUNDED f32 distances,
         non-negative over the reals (C16 T16c) but negative by rounding on
-        concrete inputs -- can never drive the FINAL cumulative length below
-        zero.  See the note at [C01_encode_never_panics_partial].
+        concrete inputs -- cannot drive the FINAL cumulative length below
+        zero when the Catmull sub-paths are bounded and free of underflow
+        ([C01_curve_dist_nonneg_bounded]: every group of removed points adds
+        r - d to the surplus and a segment of the very same binary32 length
+        d to the path, and d <= 4 r, so the surplus takes at most 76% of the
+        sum the running sum is going to add).
+        NOT PROVED (full statement [C01_encode_never_panics], below in a
+        comment): the same without those bounds.  See the note at
+        [C01_encode_never_panics_partial].
    (4c) FUEL ("completes").  OutOfFuel only out of the slider-event calls, and
         there only through the tick loop or the event count
         ([C01_events_fuel_cases]); binary64 bound: a tick distance >= 2^-k
@@ -891,9 +906,12 @@ From RM Require Import Model.Encode Model.Render Proofs.EncodingFacts Proofs.Rea
 From RM Require Proofs.FloatNonneg Proofs.CurveDistNonneg Proofs.DecodedObjects Proofs.EncodeTotal
      Proofs.TickBound Proofs.DecodeScalar Proofs.EncodeScalar Proofs.ReaderScalar Proofs.WriterOrigin
      Proofs.EncodeText Proofs.TimingPointsValues Proofs.DecodedValues Proofs.TickDistBound
-     Proofs.EncodeCompletes.
+     Proofs.EncodeCompletes Proofs.CatmullSurplusFold Proofs.CatmullSurplusLen Proofs.CatmullSurplusSeg Proofs.CatmullSurplusLoop
+     Proofs.CatmullSurplus Proofs.CatmullSurplusEncode Proofs.CatmullSurplusCheck.
 From RM Require Model.DrvEnc.
 Import Proofs.FloatNonneg Proofs.CurveDistNonneg Proofs.DecodedObjects Proofs.EncodeTotal.
+Import Proofs.CatmullSurplusFold Proofs.CatmullSurplusLen Proofs.CatmullSurplusSeg Proofs.CatmullSurplusLoop Proofs.CatmullSurplus
+       Proofs.CatmullSurplusEncode Proofs.CatmullSurplusCheck.
 
 (* pins: the constants the bounds below name *)
 Example pin_max_len : slider_max_len_dec = (false, 1000000, -1).       (* MAX_LEN = 100000.0 *)
@@ -997,17 +1015,34 @@ Print Assumptions C01_negative_dist_needs_negative_surplus.
    that class is empty whenever no slider is an osu!-mode Catmull slider or,
    more generally, every slider's surplus is not negative or is outweighed by
    one segment of its path ([C01_encode_never_panics_outweighed_surplus]).
-   Missing: emptiness of the class for osu!-mode Catmull sliders in binary
-   arithmetic.  The surplus itself IS negative on concrete decoded sliders
-   (rounding of the f32 distances; probes/C01_negdist), and so are
-   intermediate cumulative lengths; the final length is
+   The surplus itself IS negative on concrete decoded sliders (rounding of
+   the f32 distances; probes/C01_negdist), and so are intermediate
+   cumulative lengths; the final length is
      fl(..fl(fl(S + l_1) + l_2).. + l_N),  S = fl-sum of (r_k - d_k),
-   where every chord d_k is one of the l_j and r_k >= d_k (1 - ~100 * 2^-24)
-   unless an f32 distance underflows, so it is positive in practice, but the
-   proof needs a rounding-error analysis of the f32 distance (triangle
-   inequality under rounding), a bound on the number of vertices, and the
-   granularity of Catmull points (no underflow) -- not mechanised.  No
-   counterexample was found by the searches recorded in the evidence. *)
+   where every chord d_k has the same value as one of the l_j.
+   PROVED FURTHER BELOW ([C01_curve_dist_nonneg_bounded],
+   [C01_encode_never_panics_bounded]): the class is empty for BOUNDED osu!-mode
+   Catmull sliders -- every sub-path approximate_catmull produces has finite
+   vertices with |c| <= 2^20 whose consecutive vertices are numerically equal
+   or at least 2^-60 apart (no underflow in an f32 step length), those
+   sub-paths have at most 2^30 vertices in total and the computed path at
+   most 2^30 ([catmull_hyp], [path_small]; decidable by the sound test
+   [map_boundedb]): then r_k >= d_k / 4 (triangle inequality under rounding),
+   so -S <= 0.76 * (l_1 + .. + l_N), and a binary64 running sum seeded with
+   S < 0 loses at most N * 2^-53 * |S| to rounding before it turns
+   non-negative.
+   STILL MISSING: (a) emptiness of the class without those bounds, i.e. for
+   Catmull sub-paths with a step strictly between 0 and 2^-60 (the f32 step
+   length is then relatively inaccurate, down to underflow to 0 below
+   2^-75), with a coordinate beyond 2^20, or with more than 2^30 vertices;
+   (b) that every DECODED slider meets the bounds (decoded control points
+   are integers within +-2^18 of the origin -- `as i32 as f32` in
+   read_point -- and the smallest non-zero Catmull step seen on 4*10^6
+   decoded sliders is 2^-21, one ulp; the bound on the sub-path coordinates
+   and the granularity are not proved).  No counterexample was found by
+   the searches recorded in the evidence (probes/C01_negdist, including
+   3.2*10^7 curves in the underflow regime, Q1u, which a decoded file
+   cannot reach). *)
 Theorem C01_encode_never_panics_partial :
   forall lm chk fuel tf lines bv w,
   decode_beatmap (dist_of_curve lm) lines = Done bv -> neg_dist_class lm bv = false ->
@@ -1062,6 +1097,120 @@ Theorem C01_encode_never_panics_outweighed_surplus :
 Proof. exact encode_no_panic_surplus. Qed.
 Print Assumptions C01_encode_never_panics_outweighed_surplus.
 
+(* ... and for BOUNDED osu!-mode Catmull sliders, whatever the sign of the
+   surplus.  The pieces:
+   (i) `last_start.distance(curr)` (the chord the simplification subtracts)
+       and `(curr - last_start).length()` (what calculate_length adds for
+       the kept segment) have the same value, for vertices |c| <= 2^20; *)
+Theorem C01_f32_distance_symmetric :
+  forall a b : Curve.Pos,
+  LengthBound.coord_le a 20 -> LengthBound.coord_le b 20 ->
+  B2R (Curve.plen (Curve.psub a b)) = B2R (Curve.plen (Curve.psub b a)).
+Proof. exact plen_psub_sym. Qed.
+Print Assumptions C01_f32_distance_symmetric.
+
+(* (ii) a binary64 running sum seeded with a finite a0 <= 0 to which values
+        that are not negative are added is not negative at the end as soon
+        as |a0| * (1 + N * 2^-53) <= the real sum of the N added values; *)
+Theorem C01_negative_seed_running_sum :
+  forall (a0 : F64) (ls : list F64),
+  is_finite a0 = true -> (B2R a0 <= 0)%R -> Forall (fun l => nn64 l = true) ls ->
+  (- B2R a0 * (1 + INR (length ls) * AdjustIEEEBase.u64) <= Rsum ls)%R ->
+  nn64 (fold_left D.add ls a0) = true.
+Proof.
+  intros a0 ls Fa Na Hl H.
+  pose proof (fold_low a0 Fa ls 0%R 0%nat a0 (low_start a0 Fa Na) Hl) as L.
+  apply (low_nn a0 _ _ _ L). rewrite Rplus_0_l, Nat.add_0_l. exact H.
+Qed.
+Print Assumptions C01_negative_seed_running_sum.
+
+(* (iii) the surplus calculate_path hands over is finite and takes at most
+         76% of the sum of the segment lengths of the computed path; *)
+Theorem C01_catmull_surplus_bound :
+  forall lm fuel mode pts path opt,
+  catmull_hyp mode pts ->
+  Curve.calculate_path_L1 lm fuel mode pts = Done (path, opt) ->
+  is_finite opt = true /\ (- B2R opt <= 0.76 * Lam path)%R.
+Proof. exact catmull_surplus_bound. Qed.
+Print Assumptions C01_catmull_surplus_bound.
+
+(* the hypotheses, spelled out: [catmull_hyp mode pts] says that every
+   sub-path approximate_catmull produces for an osu!-mode Catmull segment of
+   the control points (the list [catmull_subpaths mode pts], which depends on
+   the control points only) has finite vertices with |c| <= 2^20 whose
+   consecutive vertices are numerically equal or >= 2^-60 apart, and that
+   these sub-paths have at most 2^30 vertices in total *)
+Example pin_cmax : cmax = IZR (2 ^ 30).
+Proof. reflexivity. Qed.
+Theorem C01_catmull_hyp_reading :
+  forall mode pts,
+  catmull_hyp mode pts <->
+  (Forall (fun cat => Forall (fun p => LengthBound.coord_le p 20) cat /\ CatmullSurplusSeg.csegs_ok cat)
+          (catmull_subpaths mode pts) /\
+   (INR (length (concat (catmull_subpaths mode pts))) <= cmax)%R).
+Proof. intros mode pts. reflexivity. Qed.
+Theorem C01_seg_ok_reading :
+  forall a b : Curve.Pos,
+  CatmullSurplusSeg.cseg_ok a b <->
+  (AdjustIEEE.R2 a = AdjustIEEE.R2 b \/
+   (Raux.bpow Zaux.radix2 (-60) <= AdjustExact.edist (AdjustIEEE.R2 a) (AdjustIEEE.R2 b))%R).
+Proof. intros a b. reflexivity. Qed.
+(* the binary32 length of a segment at least 2^-60 long is exact up to 3.1 * 2^-24 *)
+Theorem C01_f32_step_length_relative_error :
+  forall a b : Curve.Pos,
+  LengthBound.coord_le a 20 -> LengthBound.coord_le b 20 -> CatmullSurplusSeg.cseg_ok a b ->
+  is_finite (f64_of_f32 (Curve.plen (Curve.psub b a))) = true /\
+  AdjustIEEEBase.rel (B2R (f64_of_f32 (Curve.plen (Curve.psub b a))))
+                     (AdjustExact.edist (AdjustIEEE.R2 a) (AdjustIEEE.R2 b)) (3.1 * AdjustIEEEBase.u32)%R.
+Proof. exact CatmullSurplusSeg.cseg_rel. Qed.
+Print Assumptions C01_f32_step_length_relative_error.
+
+(* THE CURVE DISTANCE OF A BOUNDED OSU!-MODE CATMULL SLIDER IS NOT NEGATIVE,
+   for every requested length that is absent or positive *)
+Theorem C01_curve_dist_nonneg_bounded :
+  forall lm fuel mode pts e path opt path' lens,
+  catmull_hyp mode pts ->
+  Curve.calculate_path_L1 lm fuel mode pts = Done (path, opt) ->
+  (INR (length path) <= cmax)%R ->
+  req_ok e -> Curve.calculate_length path e opt = Done (path', lens) ->
+  D.lt (Curve.dist lens) D.zero = false.
+Proof. exact curve_dist_nonneg_bounded. Qed.
+Print Assumptions C01_curve_dist_nonneg_bounded.
+
+Theorem C01_curve_dist_not_negative_bounded :
+  forall lm fuel mode pts e c,
+  catmull_hyp mode pts -> path_small lm fuel mode pts -> req_ok e ->
+  Curve.curve_L1 lm fuel mode pts e = Done c -> nn64 (Curve.dist (Curve.c_lengths c)) = true.
+Proof. exact curve_dist_nn_bounded. Qed.
+Print Assumptions C01_curve_dist_not_negative_bounded.
+
+(* lifted to decoded maps: no panic when every osu!-mode slider with a
+   Catmull control point is bounded ([obj_bounded]: [catmull_hyp] and
+   [path_small] for its control points); [neg_dist_class] is empty there *)
+Theorem C01_bounded_class_empty :
+  forall lm lines bv,
+  decode_beatmap (dist_of_curve lm) lines = Done bv ->
+  Forall (obj_bounded lm) (hov_hit_objects (bmv_ho bv)) -> neg_dist_class lm bv = false.
+Proof. intros lm lines bv H Hs. exact (bounded_class_empty lm bv (decoded_shape lm lines bv H) Hs). Qed.
+Print Assumptions C01_bounded_class_empty.
+
+Theorem C01_encode_never_panics_bounded :
+  forall lm chk fuel tf lines bv w,
+  decode_beatmap (dist_of_curve lm) lines = Done bv ->
+  Forall (obj_bounded lm) (hov_hit_objects (bmv_ho bv)) ->
+  encode_tokens (DrvEnc.dist_real lm) (events_with chk fuel tf) bv <> Panic w.
+Proof. exact encode_no_panic_bounded. Qed.
+Print Assumptions C01_encode_never_panics_bounded.
+
+(* the hypotheses are decidable by a test on integers (every finite binary32
+   coordinate is an integer multiple of 2^-149), sound by proof *)
+Theorem C01_bounded_test_sound :
+  forall lm lines, map_boundedb lm lines = true ->
+  exists bv, decode_beatmap (dist_of_curve lm) lines = Done bv /\
+             Forall (obj_bounded lm) (hov_hit_objects (bmv_ho bv)).
+Proof. exact map_boundedb_sound. Qed.
+Print Assumptions C01_bounded_test_sound.
+
 (* Non-vacuity, and the reason the class cannot simply be proved empty by
    "every cumulative length is not negative": the decoded osu!-mode slider
    `0,0,0,2,0,L|0:0|C|0:0|2:1,1` has the cumulative lengths
@@ -1100,6 +1249,75 @@ Example C01_encode_nonvacuous :
   end /\
   firstn 1 (DrvEnc.run_enc lm0_l4 l4_text) = [tok_marker].
 Proof. vm_compute. repeat split. Qed.
+
+(* Non-vacuity of the bounded theorems on a slider with a NEGATIVE surplus:
+   the decoded osu!-mode Catmull slider above hands calculate_length the
+   surplus 0xbe5a000000000000 = -2.42e-8 (sign bit set), a path of 4
+   vertices, one Catmull sub-path of 100 vertices -- and it passes the test
+   of the hypotheses, so [C01_encode_never_panics_bounded] applies to it. *)
+Definition l4_surplus : list Z :=
+  match decode_beatmap (dist_of_curve lm0_l4) (lines_of_text l4_text) with
+  | Done bv =>
+      flat_map (fun h => match h_kind h with
+                         | KSlider s =>
+                             let pts := map CurveDist.conv_pcp (sl_control_points s) in
+                             match Curve.calculate_path_L1 lm0_l4 Curve.bezier_fuel (sl_mode s) pts with
+                             | Done (path, opt) =>
+                                 [D.bits opt; Z.of_nat (length path);
+                                  Z.of_nat (length (concat (catmull_subpaths (sl_mode s) pts)))]
+                             | _ => []
+                             end
+                         | _ => []
+                         end) (hov_hit_objects (bmv_ho bv))
+  | _ => [99]
+  end.
+Example C01_bounded_nonvacuous :
+  l4_surplus = [0xbe5a000000000000; 4; 100] /\ 2 ^ 63 <= 0xbe5a000000000000 /\
+  map_boundedb lm0_l4 (lines_of_text l4_text) = true.
+Proof. vm_compute. repeat split; discriminate. Qed.
+(* a decoded slider with a SHORT non-zero Catmull step (probes/C01_negdist,
+   Q1u intstep): `0,0,0,2,0,C|0:-5|0:-6|0:-3,1` has two consecutive sub-path
+   vertices one ulp apart -- the smallest non-zero squared step is in
+   [2^-42, 2^-41), the step about 2^-21 = 4.77e-7, far below 2^-10 -- and
+   meets the hypotheses (threshold 2^-60) *)
+Definition l5_text : str :=
+  lit "osu file format v14" ++ [10] ++ lit "[General]" ++ [10] ++ lit "Mode: 0" ++ [10] ++
+  lit "[TimingPoints]" ++ [10] ++ lit "0,500,4,1,0,100,1,0" ++ [10] ++
+  lit "[HitObjects]" ++ [10] ++ lit "0,0,0,2,0,C|0:-5|0:-6|0:-3,1" ++ [10].
+Definition l5_min_step_sq_log2 : list Z :=
+  match decode_beatmap (dist_of_curve lm0_l4) (lines_of_text l5_text) with
+  | Done bv =>
+      flat_map (fun h => match h_kind h with
+        | KSlider s =>
+            map (fun cat =>
+              let fix go (l : list Curve.Pos) : list Z :=
+                match l with
+                | a :: ((b :: _) as t) =>
+                    match spos a, spos b with
+                    | Some (xa, ya), Some (xb, yb) => ((xb - xa) ^ 2 + (yb - ya) ^ 2) :: go t
+                    | _, _ => go t
+                    end
+                | _ => []
+                end in
+              Z.log2 (fold_right (fun x m => if x =? 0 then m else Z.min x m) (2 ^ 600) (go cat)) - 298)
+              (catmull_subpaths (sl_mode s) (map CurveDist.conv_pcp (sl_control_points s)))
+        | _ => []
+        end) (hov_hit_objects (bmv_ho bv))
+  | _ => [99]
+  end.
+Example C01_bounded_small_step :
+  l5_min_step_sq_log2 = [-42] /\ map_boundedb lm0_l4 (lines_of_text l5_text) = true.
+Proof. vm_compute. split; reflexivity. Qed.
+
+Example C01_bounded_applies :
+  exists bv, decode_beatmap (dist_of_curve lm0_l4) (lines_of_text l4_text) = Done bv /\
+             Forall (obj_bounded lm0_l4) (hov_hit_objects (bmv_ho bv)) /\
+             neg_dist_class lm0_l4 bv = false.
+Proof.
+  destruct (C01_bounded_test_sound lm0_l4 (lines_of_text l4_text)) as (bv & Hd & Hb).
+  - vm_compute. reflexivity.
+  - exists bv. split; [exact Hd|]. split; [exact Hb|]. exact (C01_bounded_class_empty lm0_l4 _ bv Hd Hb).
+Qed.
 
 (* ---------- (4c) fuel ---------- *)
 
